@@ -673,7 +673,7 @@ func run(c *vf.Ctx) {
 	defer os.RemoveAll(tmp)
 
 	n := c.N(4000, 300000)
-	nw := 8
+	nw := 4
 	type job struct{ from, to int }
 	jobs := make(chan job, 64)
 	var wg sync.WaitGroup
